@@ -117,9 +117,16 @@ func NewKeywordCaseRule(preferredStyle CaseStyle) *KeywordCaseRule {
 func (r *KeywordCaseRule) Check(ctx *linter.Context) ([]linter.Violation, error) {
 	violations := []linter.Violation{}
 
+	masks, _ := linter.LineMask(ctx.SQL)
+
 	for lineNum, line := range ctx.Lines {
-		// Tokenize the line to find keywords
-		words := tokenizeLine(line)
+		// Words inside literals, quoted identifiers and comments (also multi-line
+		// ones) are not keywords: those bytes are blanked out before tokenizing
+		var mask []bool
+		if lineNum < len(masks) {
+			mask = masks[lineNum]
+		}
+		words := tokenizeLine(maskedLine(line, mask))
 
 		for _, word := range words {
 			upperWord := strings.ToUpper(word.text)
@@ -241,12 +248,39 @@ func tokenizeLine(line string) []wordToken {
 // Returns the fixed content with all keywords in preferred case, and nil error.
 func (r *KeywordCaseRule) Fix(content string, violations []linter.Violation) (string, error) {
 	lines := strings.Split(content, "\n")
+	masks, _ := linter.LineMask(content)
 
 	for i, line := range lines {
-		lines[i] = r.fixLine(line)
+		var mask []bool
+		if i < len(masks) {
+			mask = masks[i]
+		}
+		// decide on the masked line, rewrite the same bytes of the original one
+		fixed := []byte(line)
+		for _, w := range tokenizeLine(maskedLine(line, mask)) {
+			conv := r.convertKeyword(w.text)
+			if conv != w.text && len(conv) == len(w.text) {
+				copy(fixed[w.column-1:], conv)
+			}
+		}
+		lines[i] = string(fixed)
 	}
 
 	return strings.Join(lines, "\n"), nil
+}
+
+// maskedLine returns line with every byte outside plain code replaced by '#'.
+func maskedLine(line string, mask []bool) string {
+	if mask == nil {
+		return line
+	}
+	b := []byte(line)
+	for i := range b {
+		if i < len(mask) && !mask[i] {
+			b[i] = '#'
+		}
+	}
+	return string(b)
 }
 
 // fixLine fixes keyword case in a single line.
